@@ -454,9 +454,17 @@ def expand_invocations(src, macros, log):
         toks = tokenize(src)
         ed = Edits(src)
         hit = False
+        # spans of macro_rules! definitions: invocations inside a macro body are templates
+        defs = []
+        for q in range(len(toks) - 3):
+            if toks[q].text == "macro_rules" and toks[q + 1].text == "!" and toks[q + 3].text in OPEN:
+                defs.append((toks[q].s, toks[match_close(toks, q + 3)].e))
         k = 0
         while k < len(toks) - 2:
             t = toks[k]
+            if any(a <= t.s < b for (a, b) in defs):
+                k += 1
+                continue
             if t.kind == "id" and t.text in macros and toks[k + 1].text == "!" and toks[k + 2].text in OPEN \
                     and not (k >= 2 and toks[k - 1].text == "!" and toks[k - 2].text == "macro_rules"):
                 ob = k + 2
